@@ -51,6 +51,7 @@ type shadowCell struct {
 }
 
 type raceState struct {
+	objs    map[*nativeObj]*shadowCell
 	obj     map[interface{}]vclock
 	cells   map[*Value]*shadowCell
 	maps    map[*MapV]*shadowCell
@@ -62,7 +63,7 @@ func (ex *Exec) raceOn() bool { return ex.cfg.Races && len(ex.threads) > 1 }
 
 func (ex *Exec) rs() *raceState {
 	if ex.race == nil {
-		ex.race = &raceState{obj: map[interface{}]vclock{}, cells: map[*Value]*shadowCell{}, maps: map[*MapV]*shadowCell{}, tracked: map[*ssa.Function]bool{}, seen: map[string]bool{}}
+		ex.race = &raceState{objs: map[*nativeObj]*shadowCell{}, obj: map[interface{}]vclock{}, cells: map[*Value]*shadowCell{}, maps: map[*MapV]*shadowCell{}, tracked: map[*ssa.Function]bool{}, seen: map[string]bool{}}
 	}
 	return ex.race
 }
@@ -220,3 +221,17 @@ func (ex *Exec) noteMapAccess(fr *Frame, m *MapV, write bool) {
 
 func (ex *Exec) noteMapWrite(fr *Frame, m *MapV) { ex.noteMapAccess(fr, m, true) }
 func (ex *Exec) noteMapRead(fr *Frame, m *MapV)  { ex.noteMapAccess(fr, m, false) }
+
+// noteObjAccess: a method call on a modelled stateful library object.
+func (ex *Exec) noteObjAccess(fr *Frame, o *nativeObj, write bool) {
+	if o == nil || !write || !ex.raceOn() || !ex.trackedFn(fr.fn) {
+		return
+	}
+	r := ex.rs()
+	s := r.objs[o]
+	if s == nil {
+		s = &shadowCell{}
+		r.objs[o] = s
+	}
+	ex.access(fr, s, true, "state of a "+o.kind+" object")
+}
